@@ -427,3 +427,106 @@ def cow_check(prop, tier, seed, wd):
     vlib.log(f"[{prop}] CowVector: {st['distinct']} states, {len(edges)} transitions replayed per element type: {results}")
     return {"cow_states": st["distinct"], "cow_transitions": st["states"], "cow_edges_replayed": len(edges) * 2,
             "cow_scripts": nscripts, "cow_results": results}, viol
+
+
+# ---------------------------------------------------------------------------
+# C10 / C11: all completion orders of small universes (stateless DFS explorer)
+# ---------------------------------------------------------------------------
+def explore_schedules(prop, tier, seed, wd, n, max_sched):
+    import subprocess
+    import concurrent.futures as cf
+    exe = vlib.build_harness("release")
+    allc = os.path.join(wd, "explore.all")
+    vlib.gen_cases(exe, allc, "solve:small,hints,fan", n, seed + 77, "", whitebox=False, render=False, first_id=500001)
+    shards = vlib.split_file(allc, 12, wd, "explore")
+    traces, summ = [], []
+    def one(sh):
+        t = sh[:-6] + ".trace"
+        r = subprocess.run([exe, "explore", "--cases", sh, "--out", t, "--max-schedules", str(max_sched)],
+                           capture_output=True, text=True)
+        if r.returncode != 0:
+            raise vlib.ToolError("vh explore failed: " + r.stderr[-2000:])
+        return t, json.load(open(t + ".summary"))
+    with cf.ThreadPoolExecutor(max_workers=12) as ex:
+        for t, s in ex.map(one, shards):
+            traces.append(t)
+            summ += s
+    res = vlib.TraceResult()
+    with cf.ThreadPoolExecutor(max_workers=12) as ex:
+        for fails, covers, begins, st in ex.map(lambda t: vlib.validate_trace(t, tag=prop + "x"), traces):
+            res.fails += fails
+            for (_i, _k, tags) in covers:
+                for tg in tags:
+                    res.cover[tg] += 1
+            res.runs += len(begins)
+            res.states += st["distinct"]
+            res.transitions += st["states"]
+    info = {"explored_universes": len(summ), "explored_schedules": sum(s["schedules"] for s in summ),
+            "universes_explored_exhaustively": sum(1 for s in summ if s["exhaustive"]),
+            "max_schedules_per_universe": max_sched}
+    vlib.log(f"[{prop}] schedule explorer: {info}")
+    return res, info
+
+
+def _c10(prop, tier, seed, t0):
+    check.enable_rules(prop)
+    wd = vlib.fresh_dir(os.path.join(vlib.WORK, prop + "x"))
+    xres, info = explore_schedules(prop, tier, seed, wd, 10 if tier == "quick" else 120, 300 if tier == "quick" else 4000)
+    # the sampled schedules on larger universes
+    rc = check.trace_check(prop, tier, seed, check.TRACE_PLANS[prop], t0, extra_cov=info)
+    # fold the explorer's result into the evidence and verdict
+    ev = json.load(open(os.path.join(vlib.EVIDENCE, f"{prop}.json")))
+    fails = [f for f in vlib.first_fail_per_run(xres.fails) if check.owned_by(prop, f["rule"])]
+    ev["coverage"]["traces_validated_against_impl"] += xres.runs
+    ev["coverage"]["evaluations"] += xres.runs
+    ev["coverage"]["distinct_nontrivial"] += xres.cover.get("quiescent2", 0)
+    ev["coverage"]["states"] += xres.states
+    ev["coverage"]["transitions"] += xres.transitions
+    ev["wall_s"] = round(time.time() - t0, 1)
+    shown = set()
+    for f in fails:
+        if f["rule"] in shown:
+            continue
+        shown.add(f["rule"])
+        path = vlib.write_replay(prop, f)
+        print(f"VIOLATION property={prop} replay={path}")
+        rc = 1
+    ev["violations"] = ev.get("violations", 0) + len(fails)
+    json.dump(ev, open(os.path.join(vlib.EVIDENCE, f"{prop}.json"), "w"), indent=1)
+    return rc
+
+
+CHECKS["C10"] = _c10
+CHECKS["C11"] = _c10
+
+
+# ---------------------------------------------------------------------------
+# C15: the encoding itself (AtMostOne.tla replayed through the hook stream) and
+# its use by the solver (wide universes)
+# ---------------------------------------------------------------------------
+def _c15(prop, tier, seed, t0):
+    rep = check.graph_replay(prop, "amo", "MC_AtMostOne.tla", "MC_AtMostOne.cfg", "amo", [], workers=2)
+    extra_v = []
+    if rep.get("mismatches", 0):
+        d = os.path.join(vlib.REPLAYS, prop)
+        os.makedirs(d, exist_ok=True)
+        path = os.path.join(d, "atmostone_mismatch.json")
+        json.dump({"property": prop, "model": "AtMostOne", "mismatches": rep["mismatches"], "first": rep["first"]},
+                  open(path, "w"))
+        extra_v.append((f"{rep['mismatches']} transitions of AtMostOne.tla are not reproduced by the encoder", path))
+    info = {"atmostone_states": rep.get("tlc_states", 0), "atmostone_transitions_replayed": rep.get("edges", 0),
+            "atmostone_max_candidates": 40}
+    rc = check.trace_check(prop, tier, seed, check.TRACE_PLANS[prop], t0, extra_cov=info)
+    for (msg, path) in extra_v:
+        print(f"VIOLATION property={prop} replay={path}")
+        vlib.log("  " + msg)
+        rc = 1
+    return rc
+
+
+CHECKS["C15"] = _c15
+META["C15"] = _m("AtMostOne.tla (transcription of AtMostOnceTracker::add) is model checked for n <= 40 candidates (Excl: any two candidates clash on some helper, Cons: every single candidate is selectable, Minimal) and the clause set after every registration is compared with what the real encoder emits (hook stream). Generated wide universes - all candidates known up front, revealed group by group along a chain, and revealed late under backtracked alternatives - require candidate pairs (Unsolvable per the oracle) and single candidates; verdict, validity and the final assignment against the clause database are judged by TLC.", "6 C15", "TLC model checking of AtMostOne.tla + replay against the encoder's clause stream; TLA+ trace validation of wide-package problems")
+for _p, _t in (("C10", "TLA+ trace validation (TLC) of executions under controlled completion orders: exhaustive DFS over all orders of small universes, FIFO/LIFO/random on larger ones"),
+               ("C11", "TLA+ trace validation (TLC) of quiescent pending sets under exhaustively enumerated and sampled completion orders")):
+    META[_p]["technique"] = _t
+    META[_p]["text"] += " Small universes are additionally run under EVERY completion order (stateless depth-first explorer over the gate runtime, bounded per universe; the number explored exhaustively is in the evidence), all orders of one problem forming one comparison group with the synchronous run."
